@@ -76,5 +76,7 @@ def main(run):
         assumptions=["ASan cannot see an overrun from one field of a state/stack block into its neighbour inside the same allocation",
                      "UBSan kinds other than bounds/null (alignment, shift, signed overflow) are outside the property",
                      "functions no workload reaches are not claimed",
+                     "generator interfaces whose output buffer is also additional input (brngCTRStepR, rngStepR, rngStepR2) get an "
+                     "initialised buffer; their random output is not digested",
                      "MemorySanitizer is not applicable to the ctypes driver (uninstrumented interpreter); definedness is decided by the "
                      "two-fill differential (and memcheck in thorough)"])
